@@ -2,10 +2,11 @@
 """tools/seedimport.py <Cxx> <outdir>: copy a sub-agent's out/{X.diff,X_demo.py,X.json} into seeded/Cxx-X/{patch.diff,demo.py,meta.json}."""
 import sys, os, json, shutil, glob
 pid, out = sys.argv[1], sys.argv[2]
+tag = sys.argv[3] if len(sys.argv) > 3 else ""      # e.g. r2 for a second round
 V = os.path.dirname(os.path.dirname(os.path.abspath(__file__)))
 for diff in sorted(glob.glob(os.path.join(out, "*.diff"))):
     x = os.path.basename(diff)[:-5]
-    d = os.path.join(V, "seeded", f"{pid}-{x}")
+    d = os.path.join(V, "seeded", f"{pid}{tag}-{x}")
     os.makedirs(d, exist_ok=True)
     shutil.copy(diff, os.path.join(d, "patch.diff"))
     shutil.copy(os.path.join(out, f"{x}_demo.py"), os.path.join(d, "demo.py"))
@@ -14,6 +15,6 @@ for diff in sorted(glob.glob(os.path.join(out, "*.diff"))):
     except Exception as e:
         m = {"summary": f"(meta unreadable: {e})"}
     m["property"] = pid
-    m["source"] = "independent sub-agent given only the property text and a scratch worktree"
+    m["source"] = "independent sub-agent given only the property text and a scratch worktree" + (f" (round {tag})" if tag else "")
     json.dump(m, open(os.path.join(d, "meta.json"), "w"), indent=1)
     print(d)
